@@ -2401,6 +2401,10 @@ class Parser:
                 parts.append(",")
             elif token.type == TokenType.IDENTIFIER:
                 parts.append(str(token.value))
+            elif token.type not in (TokenType.NEWLINE, TokenType.INDENT, TokenType.COMMENT):
+                # Any other value or operator token (VERSION, VARIABLE, ⊕, ⇌, @ ...) is part of
+                # the pattern text; dropping it silently loses data (I1).
+                parts.append(str(token.value))
             # Note: LPAREN/RPAREN are not supported by the lexer,
             # so TYPE(X) patterns will fail at tokenization level.
             # Skip whitespace tokens
